@@ -87,6 +87,20 @@ pub enum Op {
     ToAmbiguous { src: u8, dst: u8, dt: u8, consume: bool },
     /// `amb.compatible()` / `.later()`, consuming the value.
     Resolve { src: u8, dst: u8, later: bool },
+    /// One of `N_ZONED_MAKE` APIs that build a new `Zoned` from a `Zoned`
+    /// (arithmetic, operators, rounding, start/end of day, `with()`,
+    /// `series`, ...): each embeds a fresh clone of the handle.
+    ZonedMake { src: u8, dst: u8, which: u8, arg: i16 },
+    /// One of `N_ZONED_MUTATE` in-place APIs (`+=`, `-=` with spans and
+    /// durations, `clone_from`, `mem::take`-style replacement).
+    ZonedMutate { slot: u8, which: u8, arg: i16 },
+    /// `Zoned` comparison, ordering and hashing of two values.
+    ZonedCompare { a: u8, b: u8 },
+    /// One of `N_TZ_MAKE` APIs that build a `Zoned`/`AmbiguousZoned` from a
+    /// `TimeZone` handle (`Zoned::new`, `tz.to_zoned`, `dt.to_zoned`, ...).
+    TzMake { src: u8, dst: u8, which: u8, t: u8 },
+    /// One of `N_AMB_OPS` consuming APIs of `AmbiguousZoned`.
+    AmbOp { src: u8, dst: u8, which: u8 },
     Send { slot: u8, to: u8 },
     Recv { dst: u8 },
     SwapShared { slot: u8 },
@@ -109,6 +123,11 @@ impl Op {
             Op::ExtractTz { .. } => "extract_tz",
             Op::ToAmbiguous { .. } => "to_ambiguous",
             Op::Resolve { .. } => "resolve",
+            Op::ZonedMake { .. } => "zoned_make",
+            Op::ZonedMutate { .. } => "zoned_mutate",
+            Op::ZonedCompare { .. } => "zoned_compare",
+            Op::TzMake { .. } => "tz_make",
+            Op::AmbOp { .. } => "amb_op",
             Op::Send { .. } => "send",
             Op::Recv { .. } => "recv",
             Op::SwapShared { .. } => "swap_shared",
@@ -125,6 +144,10 @@ pub struct Case {
 pub const N_INSTANTS: u8 = 8;
 pub const N_DATETIMES: u8 = 5;
 pub const N_QUERIES: u8 = 10;
+pub const N_ZONED_MAKE: u8 = 24;
+pub const N_ZONED_MUTATE: u8 = 9;
+pub const N_TZ_MAKE: u8 = 6;
+pub const N_AMB_OPS: u8 = 6;
 
 fn spec(rng: &mut Rng, pool: &[Spec]) -> Spec {
     if !pool.is_empty() && rng.chance(3, 5) {
@@ -186,6 +209,7 @@ pub fn generate(rng: &mut Rng, thorough: bool) -> Case {
             let op = match rng.weighted(&[
                 w_new, 16, 12, 6, 8, 14, w_zoned, w_zoned / 2, w_zoned / 2, w_zoned / 2,
                 w_zoned / 2, w_zoned / 2, w_send, w_send, w_shared, w_crash,
+                w_zoned, w_zoned, w_zoned / 3, w_zoned / 2, w_zoned / 2,
             ]) {
                 0 => {
                     let dst = slot(rng);
@@ -259,7 +283,41 @@ pub fn generate(rng: &mut Rng, thorough: bool) -> Case {
                     Op::Recv { dst }
                 }
                 14 => Op::SwapShared { slot: slot(rng) },
-                _ => Op::Crash,
+                15 => Op::Crash,
+                16 => {
+                    let src = full(rng, &occ);
+                    let dst = slot(rng);
+                    Op::ZonedMake {
+                        src,
+                        dst,
+                        which: rng.below(N_ZONED_MAKE as u64) as u8,
+                        arg: rng.range(-2_000, 2_000) as i16,
+                    }
+                }
+                17 => Op::ZonedMutate {
+                    slot: full(rng, &occ),
+                    which: rng.below(N_ZONED_MUTATE as u64) as u8,
+                    arg: rng.range(-2_000, 2_000) as i16,
+                },
+                18 => Op::ZonedCompare { a: full(rng, &occ), b: full(rng, &occ) },
+                19 => {
+                    let src = full(rng, &occ);
+                    let dst = slot(rng);
+                    if occ[src as usize] {
+                        occ[dst as usize] = true;
+                    }
+                    Op::TzMake {
+                        src,
+                        dst,
+                        which: rng.below(N_TZ_MAKE as u64) as u8,
+                        t: rng.below(N_INSTANTS as u64) as u8,
+                    }
+                }
+                _ => Op::AmbOp {
+                    src: full(rng, &occ),
+                    dst: slot(rng),
+                    which: rng.below(N_AMB_OPS as u64) as u8,
+                },
             };
             let crash = op == Op::Crash;
             ops.push(op);
